@@ -1,7 +1,8 @@
 // C50 correspondence: the real tun/client (*Client).getConnectedNodes (through the verif shim) with the real
 // rtt.Instrumentation as recorder. Cases: 0..6 connected nodes under random map keys (insertion order random),
 // measurement tables with missing keys, stale-only points (older than the 10 s window), fresh points, equal
-// averages, shared measurement keys, "unknown" nodes, and the no-recorder fast path.
+// averages, shared measurement keys, "unknown" nodes, long-lived keys with more samples than the recorder retains
+// (the line carries every recorded sample's age and value: ground truth for the oracle), and the no-recorder fast path.
 package main
 
 import (
@@ -53,6 +54,12 @@ func run(r *hlib.Run, tc tcase) {
 	ins := rtt.NewInstrumentation(20)
 	for _, k := range tc.order {
 		for _, p := range tc.pts[k] {
+			if p.val < 0 {
+				// ignored by RecordLatency; the back-dating shim must not be used here: it would move the
+				// previously recorded point
+				ins.RecordLatency(k, p.val)
+				continue
+			}
 			ins.VerifC50RecordAged(k, p.val, time.Duration(p.ageMs)*time.Millisecond)
 		}
 	}
@@ -87,19 +94,22 @@ func run(r *hlib.Run, tc tcase) {
 		}
 		seen[k] = true
 		ages := make([]string, len(tc.pts[k]))
+		vs := make([]string, len(tc.pts[k]))
 		for i, p := range tc.pts[k] {
 			ages[i] = strconv.Itoa(p.ageMs)
+			vs[i] = strconv.FormatInt(int64(p.val), 10) // values are integers (ns)
 		}
-		a := "_"
+		a, v := "_", "_"
 		if len(ages) > 0 {
 			a = strings.Join(ages, ";")
+			v = strings.Join(vs, ";")
 		}
 		avg := "_"
 		if s := ins.Snapshot(k, 10*time.Second); s != nil {
 			avg = strconv.FormatInt(int64(s.Average), 10)
 		}
 		sl := tc.probes[k]
-		tab = append(tab, k+"|"+a+"|"+avg+"|"+strconv.Itoa(sl[0])+";"+strconv.Itoa(sl[1]))
+		tab = append(tab, k+"|"+a+"|"+avg+"|"+strconv.Itoa(sl[0])+";"+strconv.Itoa(sl[1])+"|"+v)
 	}
 	for _, n := range nodes {
 		addKey(srtt.MakeMeasurementKey(n))
@@ -136,7 +146,7 @@ func run(r *hlib.Run, tc tcase) {
 
 func main() {
 	r := hlib.Start()
-	r.Rule = "one case = connection map (0..6 nodes, random keys and insertion order, addresses possibly shared, unknown flag) + measurement table (per key: no points / only stale points 12..60 s / fresh points 0..8 s / mixed; values from a small set so that equal averages are frequent; per key 0..5 probes recorded as sent and some as lost, independent of the samples, so keys with probes but no (recent) sample occur) + recorder on/off; non-trivial = at least 2 nodes (distinct case text)"
+	r.Rule = "one case = connection map (0..6 nodes, random keys and insertion order, addresses possibly shared, unknown flag) + measurement table (per key: no points / only stale points 12..60 s / fresh points 0..8 s / mixed / long-lived key with 18..57 samples recorded as time passes, i.e. more than the recorder's 21 retained points, window filled by old or recent samples, probing continuing or stopped, a few negative values which the recorder ignores; integer values from a small set so that equal averages are frequent; per key 0..5 probes recorded as sent and some as lost, independent of the samples, so keys with probes but no (recent) sample occur) + recorder on/off; non-trivial = at least 2 nodes (distinct case text)"
 	rng := hlib.NewRng(r.Seed)
 	if r.Replay != "" {
 		for _, t := range r.ReplayLines() {
@@ -165,11 +175,17 @@ func main() {
 					if f[1] == "_" {
 						continue
 					}
-					// the original values are not in the line; the average is: re-record it for the fresh points
-					avg, _ := strconv.ParseFloat(f[2], 64)
-					for _, a := range strings.Split(f[1], ";") {
+					var vs []string
+					if len(f) > 4 && f[4] != "_" {
+						vs = strings.Split(f[4], ";")
+					}
+					for j, a := range strings.Split(f[1], ";") {
 						ms, _ := strconv.Atoi(a)
-						tc.pts[f[0]] = append(tc.pts[f[0]], point{ms, avg})
+						v, _ := strconv.ParseFloat(f[2], 64) // old lines carry no values: the average stands in
+						if j < len(vs) {
+							v, _ = strconv.ParseFloat(vs[j], 64)
+						}
+						tc.pts[f[0]] = append(tc.pts[f[0]], point{ms, v})
 					}
 				}
 			}
@@ -178,7 +194,7 @@ func main() {
 		r.Finish()
 		return
 	}
-	vals := []float64{1e6, 2e6, 2e6, 5e6, 5e6 + 1, 3.3e7, 0, 1.5}
+	vals := []float64{1e6, 2e6, 2e6, 5e6, 5e6 + 1, 3.3e7, 0, 3}
 	n := 20000
 	if r.Thorough() {
 		n = 400000
@@ -211,7 +227,56 @@ func main() {
 				r.Count("key:probed")
 			}
 			var ps []point
-			switch rng.Intn(6) {
+			switch rng.Intn(8) {
+			case 6, 7: // long-lived gateway: more samples than the recorder retains (capacity 20 -> 21 points), recorded
+				// as time passes (ages non-increasing). The window fills while the samples are old or recent, then
+				// probing goes on or stops; the value drifts, so the retained suffix has its own average.
+				total := 18 + rng.Intn(40)
+				age := rng.Intn(70000)
+				switch rng.Intn(4) {
+				case 0:
+					age = rng.Intn(9000) // all recent
+				case 1:
+					age = 12000 + rng.Intn(50000) // starts old
+				}
+				if age > 8000 && age < 12000 {
+					age = 12000
+				}
+				stopAt := -1 // probing stops (gateway went silent) once the age drops below this
+				if rng.Chance(25) {
+					stopAt = 11000 + rng.Intn(20000)
+				}
+				v := hlib.Pick(rng, vals)
+				for m := 0; m < total; m++ {
+					if age < stopAt {
+						break
+					}
+					if rng.Chance(25) {
+						v = hlib.Pick(rng, vals)
+					}
+					pv := v
+					if rng.Chance(4) {
+						pv = -1 - float64(rng.Intn(5)) // RecordLatency ignores negative values
+					}
+					ps = append(ps, point{age, pv})
+					// next probe later in time: small steps near the window edge are avoided (>= 2 s margin)
+					step := rng.Intn(3000)
+					if rng.Chance(20) {
+						step = rng.Intn(30000)
+					}
+					age -= step
+					if age < 0 {
+						age = 0
+					}
+					if age > 8000 && age < 12000 {
+						age = 8000
+					}
+				}
+				if len(ps) > 21 {
+					r.Count("key:long-lived>21")
+				} else {
+					r.Count("key:long-lived<=21")
+				}
 			case 0: // never measured
 				r.Count("key:no-points")
 			case 1: // only stale points
